@@ -3,6 +3,14 @@ mod c45;
 mod c55;
 use vkit::{Check, Level};
 fn main() {
+    // `g-diff --filter-process`: this binary doubles as the long-running filter process used by C55
+    if std::env::args().nth(1).as_deref() == Some("--filter-process") {
+        if let Err(e) = c55::filter_process() {
+            eprintln!("filter process failed: {e}");
+            std::process::exit(1);
+        }
+        return;
+    }
     vkit::main(&[
         Check { id: "C44", level: Level::Exploration, run: c44::run },
         Check { id: "C45", level: Level::Exploration, run: c45::run },
